@@ -48,16 +48,16 @@ func (f *Formatter) formatConditionLines(expr ast.Expression) ([]string, bool, b
 				lines = append(lines, extraIndent+line)
 			}
 			lines = append(lines, ")")
-			return lines, true, true
+			return f.withNodeComments(t, lines), true, true
 		}
 		inner := strings.TrimSpace(f.formatExpression(t.Right).String())
-		return []string{"(" + inner + ")"}, false, false
+		return f.withNodeComments(t, []string{"(" + inner + ")"}), false, false
 	case *ast.PrefixExpression:
 		// Handle negation and other prefix operators containing compound conditions.
 		rightLines, rightMultiline, rightPreserve := f.formatConditionLines(t.Right)
 		if rightMultiline {
 			rightLines[0] = t.Operator + rightLines[0]
-			return rightLines, true, rightPreserve
+			return f.withNodeComments(t, rightLines), true, rightPreserve
 		}
 	case *ast.InfixExpression:
 		// Only split compound boolean operators; other infix expressions stay inline.
@@ -96,11 +96,26 @@ func (f *Formatter) formatConditionLines(expr ast.Expression) ([]string, bool, b
 			lines = append(lines, opLines...)
 			preserve = preserve || opPreserve
 		}
-		return lines, true, preserve
+		return f.withNodeComments(t, lines), true, preserve
 	}
 
 	line := strings.TrimSpace(f.formatExpression(expr).String())
 	return []string{line}, false, false
+}
+
+// withNodeComments adds the comments attached to a group, prefix or compound infix node itself
+// (e.g. `(a) /* comment */ && b`), its operands print their own comments.
+func (f *Formatter) withNodeComments(expr ast.Expression, lines []string) []string {
+	if len(lines) == 0 {
+		return lines
+	}
+	if v := f.formatComment(expr.GetMeta().Leading, " ", 0); v != "" {
+		lines[0] = v + lines[0]
+	}
+	if v := strings.TrimSpace(f.formatComment(expr.GetMeta().Trailing, " ", 0)); v != "" {
+		lines[len(lines)-1] += " " + v
+	}
+	return lines
 }
 
 // formatConditionExpression returns a chunked condition string and flags indicating multiline/preserve.
